@@ -328,6 +328,29 @@ def run(ctx, anchors=None):
                  "inputs: 1 if ANYONECANPAY else all; outputs: 0 if NONE, nIn+1 if SINGLE, else all", "legacy serializer counts are nInputs=%s nOutputs=%s" % (ni, no))
     except (fd.Unknown, KeyError) as e:
         raise AnalysisBroken("R02.3: legacy flag tabulation failed: %s" % e)
+    # legacy per-input / per-output serialisation (guarded Serialize calls in source order)
+    def ser_events(func):
+        out = []
+        for n in func.nodes():
+            if n["k"] == "call" and n.get("n") == "Serialize" and n["args"] and astq.estr(n["args"][0]) == "s":
+                out.append(("Serialize", astq.estr(n["args"][1]), [("" if t else "!") + astq.estr(c) for (c, t) in S.ast_guards(func, n)], n))
+            if n["k"] == "mcall" and n.get("n") == "SerializeScriptCode":
+                out.append(("call", "SerializeScriptCode", [("" if t else "!") + astq.estr(c) for (c, t) in S.ast_guards(func, n)], n))
+        out.sort(key=lambda x: (x[3].get("l", 0), x[3].get("c", 0)))
+        return out
+    for fname, key in (("SerializeInput", "legacy_input"), ("SerializeOutput", "legacy_output")):
+        fs = [f_ for f_ in fb.funcs.values() if "CTransactionSignatureSerializer" in f_.name and f_.short == fname]
+        if not fs:
+            raise AnalysisBroken("legacy %s not found" % fname)
+        f_ = fs[0]
+        got_ = [(a, b, c) for (a, b, c, n) in ser_events(f_)]
+        want_ = [(e["op"], e["operand"], e["when"]) for e in spec[key]]
+        ctx.site(len(got_))
+        ctx.inst(got_ == want_, "R02.3", "legacy-" + fname, f_.loc(), "%s streams %s" % (fname, [(b, c) for (a, b, c) in got_]),
+                 "legacy %s streams %s; the SIGHASH rules are %s" % (fname, got_, want_))
+    si = [f_ for f_ in fb.funcs.values() if "CTransactionSignatureSerializer" in f_.name and f_.short == "SerializeInput"][0]
+    acp = [n for n in si.nodes() if n["k"] == "if" and astq.estr(n["cond"]) == "fAnyoneCanPay" and any(x["k"] == "assign" and astq.estr(x) == "(nInput = nIn)" for x in walk(n["then"]))]
+    ctx.inst(bool(acp), "R02.3", "legacy-anyonecanpay-input", si.loc(), "with ANYONECANPAY the single serialised input is the one being signed")
     # ---- R02.5 ECDSA verification normalises the parsed signature in place and verifies that same object
     ctx.rule("R02.5", "CPubKey::Verify / VerifyCompact: lax-parse (or compact-parse), normalise IN PLACE, verify the normalised signature")
     for name in ("CPubKey::Verify", "CPubKey::VerifyCompact"):
@@ -442,6 +465,8 @@ def run(ctx, anchors=None):
 
 
 MUTANTS = [
+    dict(name="legacy-sequence-not-blanked-for-none", file="script/interpreter.cpp", find="        if (nInput != nIn && (fHashSingle || fHashNone)) {", replace="        if (nInput != nIn && fHashSingle) {", expect=["R02.3:legacy-SerializeInput"]),
+    dict(name="legacy-single-output-condition", file="script/interpreter.cpp", find="        if (fHashSingle && nOutput != nIn)\n", replace="        if (fHashSingle && nOutput == nIn)\n", expect=["R02.3:legacy-SerializeOutput"]),
     dict(name="normalize-to-null", file="pubkey.cpp", find="    secp256k1_ecdsa_signature_normalize(secp256k1_context_verify, &sig, &sig);\n    return secp256k1_ecdsa_verify(secp256k1_context_verify, &sig, hash.begin(), &pubkey);\n}\n\nbool CPubKey::VerifyCompact", replace="    secp256k1_ecdsa_signature_normalize(secp256k1_context_verify, nullptr, &sig);\n    return secp256k1_ecdsa_verify(secp256k1_context_verify, &sig, hash.begin(), &pubkey);\n}\n\nbool CPubKey::VerifyCompact", expect=["R02.5:normalize-in-place:CPubKey::Verify"]),
     dict(name="schnorr-00-hashtype-accepted", file="script/interpreter.cpp", regex=True, find=r"        if \(hashtype == SIGHASH_DEFAULT\) \{\n.*?\n            return set_error\(serror, SCRIPT_ERR_SCHNORR_SIG_HASHTYPE\);\n        \}\n", replace="", expect=["R02.6:explicit-default-hashtype-rejected"]),
     dict(name="bip143-single-output-single-sha", file="script/interpreter.cpp", find="            ss << txTo.vout[nIn];\n            hashOutputs = ss.GetHash();", replace="            ss << txTo.vout[nIn];\n            hashOutputs = ss.GetSHA256();", expect=["R02.7:finaliser:bip143"]),
